@@ -165,32 +165,37 @@ fn decision_core(m: u8) {
     leak(ctx);
 }
 verif_proof! { [C12]
-    #[kani::unwind(6)]
+    #[kani::unwind(2)]
     #[kani::use_stub_set(crate::verif_env::memvid_stubs)]
+    #[kani::use_stub_set(crate::verif_env::constant_hash_stubs)]
     #[kani::stub(parse_acl_metadata, stub_parse)]
     fn c12_decision_no_match() { decision_core(0); }
 }
 verif_proof! { [C12]
-    #[kani::unwind(6)]
+    #[kani::unwind(2)]
     #[kani::use_stub_set(crate::verif_env::memvid_stubs)]
+    #[kani::use_stub_set(crate::verif_env::constant_hash_stubs)]
     #[kani::stub(parse_acl_metadata, stub_parse)]
     fn c12_decision_role_match() { decision_core(1); }
 }
 verif_proof! { [C12]
-    #[kani::unwind(6)]
+    #[kani::unwind(2)]
     #[kani::use_stub_set(crate::verif_env::memvid_stubs)]
+    #[kani::use_stub_set(crate::verif_env::constant_hash_stubs)]
     #[kani::stub(parse_acl_metadata, stub_parse)]
     fn c12_decision_group_match() { decision_core(2); }
 }
 verif_proof! { [C12]
-    #[kani::unwind(6)]
+    #[kani::unwind(2)]
     #[kani::use_stub_set(crate::verif_env::memvid_stubs)]
+    #[kani::use_stub_set(crate::verif_env::constant_hash_stubs)]
     #[kani::stub(parse_acl_metadata, stub_parse)]
     fn c12_decision_principal_match() { decision_core(3); }
 }
 verif_proof! { [C12]
-    #[kani::unwind(6)]
+    #[kani::unwind(2)]
     #[kani::use_stub_set(crate::verif_env::memvid_stubs)]
+    #[kani::use_stub_set(crate::verif_env::constant_hash_stubs)]
     #[kani::stub(parse_acl_metadata, stub_parse)]
     fn c12_decision_cross_namespace() { decision_core(4); }
 }
